@@ -186,9 +186,15 @@ def cases(draw, kind):
         elif c == 6:
             nm, cls = draw(st.sampled_from(SKIPPED))
             entries.append({"k": "file", "name": nm, "text": body("X"), "skipped": cls})
+            if kind.startswith("tar") and draw(st.booleans()):
+                # ... and a hard or symbolic link with a visible, supported name that points at the skipped member
+                entries.append({"k": draw(st.sampled_from(["hardlink", "hardlink", "symlink"])), "name": draw(st.sampled_from(["link.txt", "docs/l.md", "visible/summary.txt"])), "target": nm})
         elif kind.startswith("tar"):
             k = draw(st.sampled_from(["symlink", "symlink", "hardlink", "chr", "blk", "fifo"]))
-            entries.append({"k": k, "name": draw(st.sampled_from(["link.txt", "docs/l.md", "dev.txt", "{HOST}/planted.txt", "../../host/planted.txt"])), "target": draw(st.sampled_from(TARGETS))})
+            # link targets: host paths, or other members of the same archive (a hard link to a hidden / skipped member must not surface its content under a visible name)
+            inner = [x["name"] for x in entries if x["k"] == "file" and x["name"]]
+            entries.append({"k": k, "name": draw(st.sampled_from(["link.txt", "docs/l.md", "dev.txt", "{HOST}/planted.txt", "../../host/planted.txt"])),
+                            "target": draw(st.sampled_from(TARGETS + inner + inner))})
         elif kind == "7z":
             k = draw(st.sampled_from(["nostream", "empty", "empty"]))
             entries.append({"k": k, "name": draw(st.sampled_from(HOSTILE_NAMES + BENIGN_NAMES))})
@@ -209,7 +215,7 @@ def validate(case):
         assert e["k"] in ("file", "dir", "symlink", "hardlink", "chr", "blk", "fifo", "nostream", "empty")
         assert isinstance(e["name"], str) and "\x00" not in e["name"]
         if e["k"] in ("symlink", "hardlink"):
-            assert e["target"] in TARGETS and case["kind"].startswith("tar")
+            assert (e["target"] in TARGETS or e["target"] in [x["name"] for x in case["entries"] if x["k"] == "file"]) and case["kind"].startswith("tar")
         if e["k"] in ("chr", "blk", "fifo"):
             assert case["kind"].startswith("tar")
         if e["k"] in ("nostream", "empty"):
@@ -289,7 +295,7 @@ def shard(ctx: Ctx, kind: str):
     part = Partial()
     worker = Worker()
     try:
-        hyp_search(ctx, f"c09-{kind}", cases(kind), lambda c: evaluate(ctx, c, worker, part), ctx.n(70, 1500), part)
+        hyp_search(ctx, f"c09-{kind}", cases(kind), lambda c: evaluate(ctx, c, worker, part), ctx.n(160, 3000), part)
     finally:
         worker.close()
     return part
